@@ -56,6 +56,12 @@ def IndexUnique (sch : SchemaEval) (S : SDoc → Prop) (i : Index) : Prop :=
 def Unique (sch : SchemaEval) (c : Coll) : Prop :=
   ∀ n i, (n, i) ∈ c.indexes → IndexUnique sch (· ∈ c.docs) i
 
+/-- C07 restricted to the well-formed documents (those a Go program can hold: int64 payloads in
+    range). This is the form that every transition preserves unconditionally; with `DocsOk c.docs`
+    it is `Unique` (`unique_of_uniqueOk`). -/
+def UniqueOk (sch : SchemaEval) (c : Coll) : Prop :=
+  ∀ n i, (n, i) ∈ c.indexes → IndexUnique sch (fun x => x ∈ c.docs ∧ DocOk x.doc) i
+
 /-- the two indexes have the same entries up to `tupleEq` on the key -/
 def sameEntries (i j : Index) : Prop :=
   (∀ k id, (k, id) ∈ i.entries → ∃ k', (k', id) ∈ j.entries ∧ tupleEq k' k = true) ∧
@@ -96,6 +102,10 @@ structure Inv (sch : SchemaEval) (cat : Catalog) (nextId : Nat) : Prop where
 /-- catalog-level uniqueness -/
 def UniqueCat (sch : SchemaEval) (cat : Catalog) : Prop :=
   ∀ h c, (h, c) ∈ cat.namespaces → Unique sch c
+
+/-- catalog-level uniqueness among the well-formed documents -/
+def UniqueOkCat (sch : SchemaEval) (cat : Catalog) : Prop :=
+  ∀ h c, (h, c) ∈ cat.namespaces → UniqueOk sch c
 
 /-- all stored documents of the catalog are well-formed -/
 def OkCat (cat : Catalog) : Prop := ∀ h c, (h, c) ∈ cat.namespaces → DocsOk c.docs
